@@ -92,6 +92,10 @@ def gen(seed, idx, tier):
                 eps = []
             elif w < 0.16:
                 eps = [ep(p), ep(p, 4001)]
+            elif w < 0.22:
+                # two endpoints of which one is TCP: still "other than exactly one endpoint"
+                tcp = ["ep", 4, f"10.0.0.{11 + p}", 6, r.choice([4000, 4001])]
+                eps = [ep(p), tcp] if r.random() < 0.5 else [tcp, ep(p)]
             if r.random() < 0.06:
                 g = 9
             counter = r.choice([0, 1]) if shared else 0
@@ -109,6 +113,11 @@ def gen(seed, idx, tier):
             ops.append({"k": "call", "t": t, "f": "set_value", "a": [1 if ev < 16 else 2, ev, "%04x" % val if r.random() < 0.8 else ""]})
             if r.random() < 0.3:
                 ops[-1]["defer"] = r.randint(1, 4)  # a few loop iterations into whatever that instant started
+            elif r.random() < 0.1:
+                # the application replaces the whole values dict (the documented way to publish a new set of values)
+                ops[-1]["f"] = "rebind_values"
+                if r.random() < 0.5:
+                    ops[-1]["a"] = [2, r.choice([17, 18]), "%04x" % val]  # ... and the new set has one more event (cyclic group)
         elif k < 0.97:
             gg = r.choice([1, 1, 1, 2])
             evs = r.choice([[1], [2], [1, 2], [2, 1], []]) if gg == 1 else r.choice([[16], []])
@@ -124,7 +133,7 @@ def gen(seed, idx, tier):
         svc = dict(SVC, eventgroups=[{"id": 1, "interval": None, "values": {"1": "", str(HI): "aabb"}}, SVC["eventgroups"][1]])
         cfg["service"] = svc
         for op in ops:
-            if op["k"] == "call" and op["f"] == "set_value" and op["a"][1] == 2:
+            if op["k"] == "call" and op["f"] in ("set_value", "rebind_values") and op["a"][1] == 2:
                 op["a"][1] = HI
             elif op["k"] == "call" and op["f"] == "notify_once" and op["a"][0] == 1:
                 op["a"][1] = [HI if e == 2 else e for e in op["a"][1]]
